@@ -5,7 +5,7 @@
      server/server.go                         serviceImpl.{Propose,Vote,NewView,Timeout,RequestBlock}
      protocol/comm/kauri/service.go           kauriServiceImpl.SendContribution (AddEvent of the request)
      internal/proto/hotstuffpb/convert.go     QuorumSignatureFromProto, *FromProto
-     types.go                                 NewPartialCert, NewQuorumCert, NewTimeoutCert, NewAggregateQC, SyncInfo
+     types.go                                 QuorumCert.Equals, NewPartialCert, NewQuorumCert, NewTimeoutCert, NewAggregateQC, SyncInfo
      security/cert/auth.go                    Verify, VerifyPartialCert, VerifyQuorumCert, VerifyTimeoutCert,
                                               VerifyAggregateQC, findHighestValidQC, VerifyAnyQC
      security/cert/cache.go                   Cache.Verify / Cache.BatchVerify (key built from signature.ToBytes())
@@ -51,10 +51,12 @@ Record guards := {
   g_agg_any   : bool;   (* auth.go VerifyAnyQC: aggQC.Sig() == nil -> error *)
   g_agg_sync  : bool;   (* timeoutrule_aggregate.go VerifySyncInfo: aggQC.Sig() == nil -> error *)
   g_cache     : bool;   (* cache.go Cache.Verify: signature == nil -> delegate to impl (which rejects) *)
-  g_bitfield  : bool    (* bitfield.go Bitfield.Contains: id == 0 -> false (ids start at 1; 1 << -1 panics) *)
+  g_bitfield  : bool;   (* bitfield.go Bitfield.Contains: id == 0 -> false (ids start at 1; 1 << -1 panics) *)
+  g_equals    : bool    (* types.go QuorumCert.Equals: one signature nil -> compare presence, no ToBytes() *)
 }.
-Definition all_guards := Build_guards true true true true true true true true.
-Definition no_guards := Build_guards false false false false false false false false.
+Definition all_guards := Build_guards true true true true true true true true true.
+(* the tree as first found; QuorumCert.Equals already had its nil check *)
+Definition no_guards := Build_guards false false false false false false false false true.
 
 Record cfg := {
   c_scheme : scheme;   (* crypto.New(config, name) *)
@@ -270,12 +272,25 @@ Definition verify_agg (c : cfg) (a : dagg) : result bool :=
 Record env := {
   e_view_ok     : bool;  (* proposal: lastVoted < block view <= local view *)
   e_vote_rule   : bool;  (* proposal: ruler.VoteRule(view, proposal) *)
-  e_qc_match    : bool;  (* proposal: block QC equals the highQC found in the AggQC *)
+  e_qc_match    : bool;  (* proposal: the block QC has the view and hash of the high QC found in the AggQC *)
+  e_hq_signed   : bool;  (* proposal: that high QC carries a signature (the genesis QC does not) *)
+  e_sig_same    : bool;  (* proposal: block QC and high QC signatures have equal bytes *)
   e_leader_ok   : bool;  (* proposal: sender is the leader of the block's view *)
   e_vote_reach  : bool;  (* vote: a voting machine is registered (no Kauri tree), the block is in the
                             local store and newer than the high QC's view *)
   e_contrib_reach : bool (* contribution: view equals Kauri's current view and its block can be fetched *)
 }.
+
+(* QuorumCert.Equals(other): view, hash, then the signatures; with exactly one signature nil the
+   certificates differ — signature.ToBytes() on the nil interface would panic.
+   vh_eq = views and hashes are equal; a / b = this / the other certificate has a signature. *)
+Definition qc_equals (g : guards) (vh_eq a b same_bytes : bool) : result bool :=
+  if negb vh_eq then Ok false
+  else match a, b with
+       | false, false => Ok true
+       | true, true => Ok same_bytes
+       | _, _ => if g_equals g then Ok false else Panic
+       end.
 
 (* VerifyAnyQC *)
 Definition verify_any_qc (c : cfg) (e : env) (bqc : dqc) (agg : option dagg) : result bool :=
@@ -287,7 +302,13 @@ Definition verify_any_qc (c : cfg) (e : env) (bqc : dqc) (agg : option dagg) : r
         match (if g_agg_any (c_g c) then match da_sig a with None => Ok false | Some _ => verify_agg c a end
                else verify_agg c a) with
         | Panic => Panic
-        | Ok true => if e_qc_match e then rest else Ok false
+        | Ok true =>
+            match qc_equals (c_g c) (e_qc_match e)
+                    (match dq_sig bqc with None => false | Some _ => true end) (e_hq_signed e) (e_sig_same e) with
+            | Panic => Panic
+            | Ok true => rest
+            | _ => Ok false
+            end
         | _ => Ok false
         end
     end
